@@ -15,5 +15,6 @@ func controlsC07() []Control {
 		{Name: "hand state cleared at settlement", Expect: "R3", Mutate: replaceIn("(*tableEngine).settleGame", "te.emitEvent(\"SettleTableGameResult\", \"\")", "te.emitEvent(\"SettleTableGameResult\", \"\")\n\tdefer func() { te.table.State.GameState = nil }()", 0)},
 		{Name: "continue handler pauses unconditionally", Expect: "R1", Mutate: replaceIn("(*tableEngine).continueGame", "if te.table.ShouldPause() {", "if true {", 0)},
 		{Name: "opened status written on the live table", Expect: "R1", Mutate: replaceIn("(*tableEngine).openGame", "cloneTable.State.Status = TableStateStatus_TableGameOpened", "oldTable.State.Status = TableStateStatus_TableGameOpened", 0)},
+		{Name: "blinds-set predicate is a disjunction", Expect: "R6", Mutate: replaceIn("(TableBlindState).IsSet", "bs.SB != UnsetValue && bs.BB != UnsetValue", "(bs.SB != UnsetValue || bs.BB != UnsetValue)", 0)},
 	}
 }
